@@ -5,6 +5,7 @@
   incremental parser of Model/Resp.lean; command handlers are a parameter).  Property theorems only.
 -/
 import FerrousSpec.Proofs.ConnLoop
+import FerrousSpec.Proofs.WriteBuf
 import FerrousSpec.Props.C20
 set_option linter.unusedSimpArgs false
 namespace Ferrous.C05
@@ -105,7 +106,40 @@ theorem reply_stream_parses_back (replies : List Frame) (hw : ∀ f ∈ replies,
     runChunks true [] cs = replies.map Ev.frame := by
   rw [C20.chunking_independent cs, hcs, whole_stream_events replies hw]
 
+/-! ### The write path: partial writes and back-pressure do not lose, repeat or reorder reply bytes -/
+
+/-- (4) **Every reply byte goes out exactly once, in order, however the socket accepts them.**  For EVERY
+    history of replies appended to the connection's write buffer and `write` calls in which the socket
+    takes any number of bytes (none when it would block, a part, everything), starting from an empty
+    buffer: the bytes put on the wire followed by those still pending are exactly the bytes of all replies
+    in order — nothing lost, nothing sent twice, nothing out of order; and `has_pending_writes` is false
+    exactly when everything has gone out.  (`Connection::flush`, `send_frame`, `send_raw`.) -/
+theorem write_path_delivers_exactly (evs : List WBuf.Ev) :
+    (WBuf.run true {} evs).2 ++ WBuf.pending (WBuf.run true {} evs).1 = WBuf.sent evs := by
+  have h := (WBuf.run_conserves evs {} (by simp [WBuf.Inv])).1
+  simpa [WBuf.pending] using h
+
+/-- … in particular once nothing is pending the client has received every reply byte. -/
+theorem write_path_complete_when_drained (evs : List WBuf.Ev) (h : WBuf.pending (WBuf.run true {} evs).1 = []) :
+    (WBuf.run true {} evs).2 = WBuf.sent evs := by
+  have := write_path_delivers_exactly evs
+  rw [h, List.append_nil] at this
+  exact this
+
+/-- TIE: the bookkeeping of `Connection::flush` as the translator reads it from connection.rs on this run is the
+    modelled one (the unsent suffix is handed to the socket, the offset ADVANCES by what was accepted, the buffer
+    is cleared only when everything went out, replies are appended). -/
+theorem tree_write_path : Gen.writeOffsetAdvances = true := by decide
+
+/-- Why the `+=` matters: with the offset ASSIGNED (`write_offset = n`) a reply that needs three partial writes
+    repeats bytes on the wire — the client would read garbage after a large reply. -/
+theorem write_path_fails_if_offset_assigned :
+    (WBuf.run false {} [.send [1, 2, 3, 4], .write 1, .write 1, .write 1]).2 = [1, 2, 2] ∧
+    WBuf.sent [.send [1, 2, 3, 4], .write 1, .write 1, .write 1] = [1, 2, 3, 4] := by decide
+
 /-! ### Non-vacuity -/
+example : (WBuf.run true {} [.send [1, 2, 3], .write 0, .write 2, .send [4], .write 1, .write 5]).2 = [1, 2, 3, 4] ∧
+    WBuf.pending (WBuf.run true {} [.send [1, 2, 3], .write 0, .write 2, .send [4], .write 1, .write 5]).1 = [] := by decide
 example : isCmd (.array [.bulk [71, 69, 84], .bulk [107, 13, 10]]) = true := by decide
 example : (drain true [63, 13, 10]).1 = [Ev.err] ∧ ([63, 13, 10] : Bytes).dropWhile isNl = [63, 13, 10] := by
   constructor <;> rfl
